@@ -260,3 +260,14 @@ func init() {
 		Bounds: map[string]interface{}{"kernels": "asmForwardDCT64 vs forwardDCT64 (64 symbolic inputs), asmForwardDCT256 vs forwardDCT256 (256), asmDCT2DHash64 vs DCT2DHash64 Go branch (4096)", "memory": "every load/store of the three routines checked against the argument slice, the declared stack frame and the RODATA tables"},
 	})
 }
+
+func init() {
+	register(&CheckDef{ID: "C20", Level: "translation_validation", Timeout: [2]int{600, 2000}, MaxSteps: 400000000,
+		Assumptions: []string{
+			"asmx executes asmYCbCrToGray from asm_x86.s with the arguments AsmYCbCrToGray passes (real image.YCbCr values built by image.NewYCbCr / SubImage, interpreted from their SSA); integer lanes are exact bit-vectors, VCVTDQ2PS / VMULPS / VADDPS are evaluated in float32 on concrete lanes",
+			"addresses do not depend on plane contents: the in-bounds obligations hold for every content of each enumerated layout; the value obligation (within 2.0 of the portable formula) is evaluated on one patterned content per layout, not for all contents",
+			"32-byte alignment of the aligned store is recorded as a note (Go does not guarantee it for a []float32), not decided",
+		},
+		Bounds: map[string]interface{}{"layouts": "64x64 images for each of the six subsample ratios, at the origin and as the sub-image (8,8)-(72,72) of an 80x80 image (YStride 80 > width)", "outside": "256x256 images, other origins/strides"},
+	})
+}
